@@ -15,6 +15,7 @@ import (
 	"time"
 
 	"github.com/oauth2-proxy/oauth2-proxy/v7/pkg/apis/options"
+	"github.com/oauth2-proxy/oauth2-proxy/v7/pkg/encryption"
 	"github.com/oauth2-proxy/oauth2-proxy/v7/pkg/logger"
 	"github.com/oauth2-proxy/oauth2-proxy/v7/pkg/validation"
 )
@@ -153,6 +154,21 @@ func driveC19(t *testing.T, out *vEmitter) {
 				for _, m := range []string{"", "|", "||", "a|b|c", "a|1|c", "|1|", v[:len(v)/2], v + "x", strings.Replace(v, "|", "", 1), "%zz", strings.Repeat("A", 5000),
 					"QUJD|1790000000|" + strings.Repeat("A", 43) + "=", "QUJD|-1|x", "QUJD|99999999999999999999|x", base64.URLEncoding.EncodeToString([]byte("v2.a")) + "|1|x"} {
 					vs = append(vs, name+"="+m, name+"_0="+m, name+"_0="+m+"; "+name+"_1="+m, name+"_csrf="+m)
+				}
+			}
+			// payloads the proxy never issues, under a VALID signature and timestamp (what remains to be parsed once the
+			// integrity check passed): ticket encodings with missing / empty / extra segments, ciphertexts too short to carry a
+			// nonce or an IV, garbage where compressed msgpack is expected
+			for _, payload := range []string{"", ".", "..", "x", "a.b", "a.", ".b", "v2", "v2.", "v2..", "v2.AAAA", "v2.AAAA.", "v2.AAAA.!!!", "v2.!!!.AAAA", "v2..AAAA", "a.b.c.d", "v2.AAAA.AAAA.AAAA",
+				"v3.AAAA.AAAA", e.opts.Cookie.Name + "-0123456789abcdef.AAAA", "\x00", "\x01\x02\x03", strings.Repeat("\x00", 11), strings.Repeat("\x00", 12), strings.Repeat("\x00", 15), strings.Repeat("\x00", 16), strings.Repeat("\xff", 17),
+				strings.Repeat("A", 31), strings.Repeat("\x04\x22\x4d\x18", 8), "\x80", "\xc0", "\xdc\xff\xff"} {
+				for _, nm := range []string{name, name + "_0", name + "_csrf"} {
+					if sv, err := encryption.SignedValue(e.opts.Cookie.Secret, nm, []byte(payload), time.Now()); err == nil {
+						vs = append(vs, nm+"="+sv)
+						if nm == name+"_0" {
+							vs = append(vs, nm+"="+sv+"; "+name+"_1="+sv)
+						}
+					}
 				}
 			}
 			return vs
